@@ -298,3 +298,216 @@ func codecTraceRun(c *Ctx, mode string, nQuick, nThorough int, inScope func(v Co
 	}
 	return st
 }
+
+// ---- direction A: TLC-exported transitions of the decoder machine replayed in the code -------
+
+type MCJob struct {
+	Type   string
+	Fields string // comma separated field filter on the root type ("" = all)
+	MaxLen int
+}
+
+type EdgeVerdict struct {
+	N       int    `json:"n"`
+	P       []int  `json:"p"`
+	I       int    `json:"i"`
+	Shape   string `json:"shape"`
+	Ref     bool   `json:"ref"`
+	Fresh   bool   `json:"fresh"`
+	Merge   bool   `json:"merge"`
+	Fast    bool   `json:"fast"`
+	Enc     bool   `json:"enc"`
+	Size    bool   `json:"size"`
+	RefEnc  bool   `json:"refenc"`
+	RT      bool   `json:"rt"`
+	Disc    bool   `json:"disc"`
+	RefDisc bool   `json:"refdisc"`
+	Note    string `json:"note"`
+	Job     MCJob  `json:"job"`
+}
+
+type MCStats struct {
+	States, Transitions, Edges int64
+	Alphabet                   int64
+	Jobs                       int
+	Sample                     any
+}
+
+// runMCCodec model-checks MC_Codec for each job (invariants + per-transition assertions), with
+// the export hook on, and replays every exported transition in the real code.
+func runMCCodec(c *Ctx, jobs []MCJob) ([]EdgeVerdict, *MCStats) {
+	st := &MCStats{}
+	var out []EdgeVerdict
+	var mu sync.Mutex
+	sem := make(chan struct{}, 12)
+	var wg sync.WaitGroup
+	for ji, job := range jobs {
+		wg.Add(1)
+		sem <- struct{}{}
+		go func(ji int, job MCJob) {
+			defer wg.Done()
+			defer func() { <-sem }()
+			fail := func(f string, a ...any) {
+				mu.Lock()
+				c.R.InternalErr("MC_Codec %s[%s]: %s", job.Type, job.Fields, fmt.Sprintf(f, a...))
+				mu.Unlock()
+			}
+			dir := filepath.Join(c.S.Dir, "mc", fmt.Sprintf("j%d", ji))
+			os.MkdirAll(dir, 0o755)
+			schema := filepath.Join(dir, "schema.json")
+			args := []string{"schema", "--type", job.Type, "--out", schema}
+			if job.Fields != "" {
+				args = append(args, "--fields", job.Fields)
+			}
+			if o, err := c.S.HRun(2*time.Minute, args...); err != nil {
+				fail("h schema: %v %s", err, trunc(o, 500))
+				return
+			}
+			exp := filepath.Join(dir, "export.txt")
+			ef, err := os.Create(exp)
+			if err != nil {
+				fail("%v", err)
+				return
+			}
+			bw := bufio.NewWriterSize(ef, 1<<20)
+			res, err := RunTLC(filepath.Join(dir, "tlc"), TLCOpts{Spec: "MC_Codec", Cfg: "MC_Codec.cfg", Workers: 1, Timeout: 60 * time.Minute, HeapMB: 4000,
+				Env:      map[string]string{"VERIF_SCHEMA": schema, "VERIF_TYPE": job.Type, "VERIF_MAXLEN": fmt.Sprint(job.MaxLen), "VERIF_EXPORT": "1"},
+				LineSink: func(l string) { bw.WriteString(l); bw.WriteByte('\n') }})
+			bw.Flush()
+			ef.Close()
+			if err != nil {
+				fail("tlc: %v", err)
+				return
+			}
+			if res.Err != "" {
+				// an invariant or StepOK failure on the model is a modelling error, never a verdict
+				fail("TLC reported an error on the model (spec problem, not a code violation): %s", trunc(res.Err, 1500))
+				return
+			}
+			verd := filepath.Join(dir, "verdicts.ndjson")
+			if o, err := c.S.HRun(30*time.Minute, "codec-replay", "--type", job.Type, "--in", exp, "--out", verd); err != nil {
+				fail("h codec-replay: %v %s", err, trunc(o, 1500))
+				return
+			}
+			vf, err := os.Open(verd)
+			if err != nil {
+				fail("%v", err)
+				return
+			}
+			defer vf.Close()
+			sc := bufio.NewScanner(vf)
+			sc.Buffer(make([]byte, 1<<20), 1<<28)
+			var local []EdgeVerdict
+			var edges, alpha int64
+			var sample any
+			for sc.Scan() {
+				line := sc.Bytes()
+				if strings.Contains(string(line), `"summary":true`) {
+					var s struct {
+						Edges    int64 `json:"edges"`
+						Alphabet int64 `json:"alphabet"`
+						Sample   any   `json:"sample"`
+					}
+					json.Unmarshal(line, &s)
+					edges, alpha, sample = s.Edges, s.Alphabet, s.Sample
+					continue
+				}
+				var v EdgeVerdict
+				if err := json.Unmarshal(line, &v); err != nil {
+					fail("bad verdict: %v", err)
+					return
+				}
+				v.Job = job
+				local = append(local, v)
+			}
+			if edges == 0 || edges != res.Generated-1 {
+				fail("edge count mismatch: replayed %d, TLC generated %d states", edges, res.Generated)
+				return
+			}
+			mu.Lock()
+			st.States += res.Distinct
+			st.Transitions += res.Generated
+			st.Edges += edges
+			st.Alphabet += alpha
+			st.Jobs++
+			if st.Sample == nil && sample != nil {
+				st.Sample = map[string]any{"job": job, "edge": sample}
+			}
+			out = append(out, local...)
+			mu.Unlock()
+			os.RemoveAll(dir)
+		}(ji, job)
+	}
+	wg.Wait()
+	return out, st
+}
+
+// mcJobs returns the model-checking jobs for a tier.
+func mcJobs(c *Ctx) []MCJob {
+	has := func(name string) bool {
+		for _, t := range c.S.Types {
+			if t.Name == name {
+				return true
+			}
+		}
+		return false
+	}
+	var jobs []MCJob
+	add := func(t, f string, q, th int) {
+		if has(t) {
+			jobs = append(jobs, MCJob{t, f, c.pick(q, th)})
+		}
+	}
+	// freshly generated model schema: whole message shallow, families deeper
+	add("verif.s0.M", "", 2, 2)
+	add("verif.s0.M", "i,d,s,b,e,z,t,f,fl", 2, 3)
+	add("verif.s0.M", "ri,rn,rs,ru", 2, 3)
+	add("verif.s0.M", "msi,min,mbb", 2, 3)
+	add("verif.s0.M", "n,oi,os,on,qb,qd", 2, 3)
+	add("verif.s0.N", "", 2, 3)
+	// checked-in types (sub-schemas derived from the real descriptors)
+	add("A", "enum,some_boolean,INT32,SINT32,UINT32,INT64,SING64,UINT64,SFIXED32,FIXED32,FLOAT,SFIXED64,FIXED64,DOUBLE,STRING,BYTES", 2, 2)
+	add("A", "MESSAGE,MAP,LIST,ONEOF_B,ONEOF_STRING,LIST_ENUM,imported", 2, 3)
+	add("goproto.proto.test3.TestAllTypes", "singular_int32,singular_sint64,singular_nested_message,repeated_int32,repeated_nested_message,map_int32_int32,map_string_nested_message,oneof_uint32,oneof_nested_message,oneof_string", 2, 3)
+	add("goproto.proto.test3.TestAllTypes", "repeated_sint32,repeated_fixed64,repeated_float,repeated_bool,repeated_string,repeated_bytes,repeated_nested_enum,map_bool_bool,map_string_bytes,map_sint64_sint64,map_fixed32_fixed32,map_string_nested_enum", 2, 2)
+	// matrix corpus (fresh)
+	add("verif.mx.Sub", "", 2, 3)
+	add("verif.mxtag.Tags", "t1,t2047,t2048,t262144,t33554432,t536870911,rp20,ru300001,mp40000002,ow536870004,rm3003", 2, 2)
+	if c.Thorough() {
+		add("verif.mx.All", "s_sint32,s_sint64,s_bool,s_float,s_enum,r_sint32,r_bool,r_enum,u_sint64,u_double,u_enum,o_message,o_message2,o_bool,o_enum", 2, 2)
+		add("verif.mxmap.Maps", "", 1, 1)
+		add("verif.xa.Holder", "", 1, 2)
+		add("verif.nm.CollideShapes", "", 2, 2)
+	}
+	return jobs
+}
+
+// mcCodecCheck runs direction A for a property; bad(v) says whether an edge verdict is in the
+// property's scope and failing, returning the flag name.
+func mcCodecCheck(c *Ctx, bad func(v EdgeVerdict) string) {
+	jobs := mcJobs(c)
+	verdicts, st := runMCCodec(c, jobs)
+	for _, v := range verdicts {
+		if !v.Ref || !v.RefEnc || !v.RefDisc {
+			c.R.InternalErr("spec and reference disagree on exported edge: %+v", v)
+			continue
+		}
+		if flag := bad(v); flag != "" {
+			c.R.Violate("mc:"+flag+":"+v.Shape, fmt.Sprintf("type=%s fields=%s path=%v record#=%d %s", v.Job.Type, v.Job.Fields, v.P, v.I, v.Note),
+				map[string]any{"engine": "mc_codec", "job": v.Job, "path": v.P, "record": v.I})
+		}
+	}
+	c.R.AddCount("states", st.States)
+	c.R.AddCount("transitions", st.Transitions)
+	c.R.AddCount("traces_validated_against_impl", st.Edges)
+	c.R.AddCount("evaluations", st.Edges)
+	c.R.AddCount("mc_edges_replayed", st.Edges)
+	c.R.AddCount("mc_states", st.States)
+	c.R.Cov["mc_jobs"] = st.Jobs
+	c.R.Cov["mc_alphabet_records_total"] = st.Alphabet
+	c.R.Cov["exhaustive"] = true
+	c.R.Cov["exhaustive_note"] = "all record sequences up to MaxLen over the schema-derived alphabet, for each model-checking job; every generated transition replayed in the code"
+	if st.Sample != nil {
+		c.R.Sample(st.Sample)
+	}
+}
